@@ -45,13 +45,17 @@ META = {
                  'rendered assignments by induction, rejection, purity of parse as a state transformer, precedence) '
                  '+ differential correspondence against the real classes on five code paths + specification monitor',
     'design_ref': '§5 C16, §4 M4',
-    'level_text': 'Machine-checked for every option table, assignment list, environment, configuration and argv: '
-                  'the model of CmdParse.parse returns the parser object unchanged (pure, so a second parse gives the '
-                  'same result); getopt applied to any rendering of a list of assignments (short clusters, attached / '
-                  'detached values, --long=v, --long v, inverse flags, optional `--`) returns exactly the written pairs '
-                  'and the positional arguments; unknown / truncated / flag-with-value / ambiguous / ill-typed / '
-                  'bad-choice inputs are errors; values resolve by command line > environment > DOIT_CONFIG > config '
-                  'sections > declared default.  The model is tied to doit on every run by driving the real '
+    'level_text': 'Machine-checked for every option table with distinct names, assignment list, environment, '
+                  'configuration and argv: the model of CmdParse.parse returns the parser object unchanged (pure, so a '
+                  'second parse gives the same result); any rendering of a list of assignments (short clusters, '
+                  'attached / detached values, --long=v, --long v, inverse flags, optional `--`) is accepted whenever '
+                  'its texts convert (accept) and then every option holds exactly the value the property states and '
+                  'the positionals come back unchanged (roundtrip_total, precedence: command line > environment > '
+                  'DOIT_CONFIG > config sections > declared default; last wins, lists accumulate, flags / inverse '
+                  'flags); unknown / truncated / flag-with-value / ambiguous-prefix / ill-typed / bad-choice inputs in '
+                  'argv, environment or config are errors (reject_*); unique abbreviations of long names resolve; the '
+                  'pinned list `append` is refuted by three counterexample theorems; `decide (WF table)` is '
+                  're-discharged for the option table of every real doit command on every run.  The model is tied to doit on every run by driving the real '
                   'CmdParse / Command / DoitMain+DoitCmdBase / Task.init_options / @task_params code on generated '
                   'inputs; the monitor compares the real results with the specification value computed in Lean from '
                   'the structured input, and checks purity on the real parser objects.',
@@ -64,7 +68,9 @@ META = {
     'rule': 'option tables of 1-6 options over bool/int/str/list with short/long/inverse/choices/env_var (longs drawn '
             'from a pool with prefix relations; 10% ill-formed tables for (K) only) x structured assignment lists in all '
             'rendering forms (+ `--`, positionals) or malformed injections (9 kinds) or garbage token streams x env x '
-            'config sections (raw strings and typed values) x DOIT_CONFIG, on 5 code paths; non-trivial = at least one '
+            'config sections (raw strings and typed values; API dict, INI file, pyproject.toml) x DOIT_CONFIG, on 5 '
+            'code paths; 35% of the cases with an earlier, different command line handled first by the same parser / '
+            'command object / process; + all argv up to length 2 (quick) / 3 (thorough) over 16 tokens; non-trivial = at least one '
             'option is decided by a non-default source or the input is rejected; distinct = distinct canonical case',
     'assumptions': ['text values are ASCII where python would apply unicode rules (int(), lower(), strip())',
                     'option tables satisfy WF for the monitor (ill-formed tables are only compared with the model)',
@@ -119,7 +125,10 @@ def gen_case(rng, base, path=None):
             case['glob'] = glob
         if path == 'main':
             case['dodo'] = dodo
-            if rng.random() < 0.5:
+            r = rng.random()
+            if r < 0.3 and optlib.toml_file_ok(case):
+                case['ini_mode'] = 'toml'
+            elif r < 0.65:
                 case['ini'] = [e for e in case['ini'] if 'raw' in e[1]]
                 case['glob'] = [e for e in case['glob'] if 'raw' in e[1]]
                 if optlib.ini_file_ok(case):
@@ -452,7 +461,7 @@ def account(st, case, impl, model, spec):
              'prev': case.get('prev_argv')},
             nontrivial(case, impl))
     st.traces += 1
-    st.count('path:' + case['path'])
+    st.count('path:' + case['path'] + (('/config-' + case['ini_mode']) if case['path'] == 'main' else ''))
     st.count('options:%d' % (len(case['spec']) - case['n_base']))
     st.count('kind:' + ('malformed' if case.get('malformed') else 'abbrev' if case.get('abbrev') else
                         'structured' if case['asgs'] is not None else 'garbage'))
